@@ -449,7 +449,11 @@ class D1Oracle:
         return [x for x, d in self.told.items() if len(d) < self.cfg["min_samples"]]
 
     def on_ask(self, l, n, out):
-        if not self.active or out == "err":
+        if not self.active:
+            return
+        if out == "err":
+            if n >= 1:
+                self.err("1d_ask", f"ask({n}) raised ZeroDivisionError")
             return
         short = self.short()
         xs = {x for _, x in out}
@@ -772,6 +776,12 @@ def twin_compare(cfg, steps):
 
 
 # ======================================================================
+def shard_size(cases, target_bytes=1.5e6):
+    """Cases per generated .v file so that a file stays around 1.5 MB (coqc memory)."""
+    total = sum(len(c) for c in cases) or 1
+    return max(4, min(200, int(len(cases) * target_bytes / total)))
+
+
 def jsonable_ops(steps):
     return json.loads(json.dumps([list(s[0]) for s in steps], default=lambda o: repr(o)))
 
@@ -784,8 +794,8 @@ def run(chk: Check) -> int:
     chk.log(f"implementation probes: F11 repaired={guard}  F13 repaired={dedup}")
 
     # ------------------------------------------------------------ AverageLearner
-    na = 350 if quick else 4000
-    maxlen = 30 if quick else 120
+    na = 350 if quick else 2500
+    maxlen = 30 if quick else 90
     cases, metas = [], []
     hist = {"ask": 0, "tell": 0, "tell_pending": 0, "remove_unfinished": 0}
     fams, stats = {}, {"std_checked": 0, "loss_checked": 0, "fallback_asks": 0, "sq_exceptions": 0,
@@ -845,7 +855,7 @@ def run(chk: Check) -> int:
             add_avg(xcfg, steps, orc, sqx, "exhaustive-len4")
             exhaustive_avg += 1
     mism, reached, errors = chk.coq_cases("avg", PREAMBLE, "acase", cases, "acheck", "a_reaches_min",
-                                          shard=60 if quick else 150)
+                                          shard=shard_size(cases))
     for e in errors:
         chk.broke("correspondence", "Model/Avg.v cases could not be evaluated", e)
     for c, s in mism[:5]:
@@ -857,8 +867,8 @@ def run(chk: Check) -> int:
     navg, mis_a = len(cases), len(mism)
 
     # ------------------------------------------------------------ AverageLearner1D
-    nd = 220 if quick else 1500
-    maxlen1 = 26 if quick else 60
+    nd = 220 if quick else 1200
+    maxlen1 = 26 if quick else 50
     cases1, metas1 = [], []
     hist1 = {"ask": 0, "tell": 0, "tell_many_at": 0, "tell_many": 0}
     st1 = {"asks_while_short": 0, "asks_to_short_abscissa": 0, "asks_free": 0, "err_checked": 0,
@@ -934,7 +944,7 @@ def run(chk: Check) -> int:
                     add_d1(xcfg, steps, orc, info, l, "exhaustive-perm5", twin=(k > 0))
                     exhaustive_1d += 1
     mism1, legal1, errors1 = chk.coq_cases("avg1d", PREAMBLE, "dcase", cases1, "dcheck", "dlegal",
-                                           shard=30 if quick else 160)
+                                           shard=shard_size(cases1))
     for e in errors1:
         chk.broke("correspondence", "Model/Avg1D.v cases could not be evaluated", e)
     for c, s in mism1[:5]:
